@@ -1163,3 +1163,68 @@ pub fn c18_declared_signers<S: Src>(_s: &mut S) {
     for f in &failures { eprintln!("C18-DECL {}", f); }
     assert!(failures.is_empty(), "{} declared-signer scenarios violate the property; first: {}", failures.len(), failures[0]);
 }
+
+// ---------------------------------------------------------------- C05: the balancing step, judged on the body build() assembles
+/// add_change_if_needed on builders whose change is ada-only / carries assets (one or several policies, more than one
+/// output can hold), with prefer_pure_change on and off, the three fee requests and a datum on the change output; the
+/// body `build()` returns (no build_tx gate) must conserve lovelace and every asset.
+pub fn c05_change_step<S: Src>(_s: &mut S) {
+    use std::collections::BTreeMap;
+    let mut failures: Vec<String> = Vec::new();
+    let mut successes = 0usize;
+    type Ledger = BTreeMap<(Vec<u8>, Vec<u8>), i128>;
+    fn add(l: &mut Ledger, v: &Value) {
+        *l.entry((vec![], vec![])).or_insert(0) += u64::from(v.coin()) as i128;
+        if let Some(ma) = v.multiasset() {
+            let ps = ma.keys();
+            for p in 0..ps.len() { let pol = ps.get(p); let assets = ma.get(&pol).unwrap(); let ns = assets.keys();
+                for n in 0..ns.len() { let nm = ns.get(n); *l.entry((pol.to_bytes(), nm.name())).or_insert(0) += u64::from(assets.get(&nm).unwrap()) as i128; } }
+        }
+    }
+    for prefer_pure in [false, true] {
+        for fee_mode in 0..3u8 {
+            for n_policies in [0usize, 1, 3, 40] {
+                for lovelace in [2_300_000u64, 5_000_000, 20_000_000, 900_000_000] {
+                    for with_datum in [false, true] {
+                        for max_value_size in [5000u32, 300] {
+                            let cfg = TransactionBuilderConfigBuilder::new()
+                                .fee_algo(&LinearFee::new(&bn(44), &bn(155381))).pool_deposit(&bn(500_000_000)).key_deposit(&bn(2_000_000))
+                                .max_value_size(max_value_size).max_tx_size(16384).coins_per_utxo_byte(&bn(4310)).prefer_pure_change(prefer_pure).build().unwrap();
+                            let mut tb = TransactionBuilder::new(&cfg);
+                            let mut ma = MultiAsset::new();
+                            for p in 0..n_policies {
+                                let mut assets = Assets::new();
+                                for k in 0..(1 + p % 3) { assets.insert(&AssetName::new(vec![k as u8, p as u8, 7]).unwrap(), &bn(1 + (p as u64) * 1000 + k as u64)); }
+                                ma.insert(&ScriptHash::from([p as u8 + 1; 28]), &assets);
+                            }
+                            let input_value = if n_policies > 0 { Value::new_with_assets(&bn(lovelace), &ma) } else { Value::new(&bn(lovelace)) };
+                            if tb.add_regular_input(&addr(1, 1), &TransactionInput::new(&TransactionHash::from([1u8; 32]), 0), &input_value).is_err() { continue; }
+                            let payment = Value::new(&bn(1_200_000));
+                            if tb.add_output(&TransactionOutput::new(&addr(1, 2), &payment)).is_err() { continue; }
+                            match fee_mode { 1 => tb.set_min_fee(&bn(400_000)), 2 => tb.set_fee(&bn(300_000)), _ => () }
+                            let r = if with_datum {
+                                tb.add_change_if_needed_with_datum(&addr(1, 3), &OutputDatum::new_data_hash(&DataHash::from([3u8; 32])))
+                            } else { tb.add_change_if_needed(&addr(1, 3)) };
+                            if r.is_err() { continue; }
+                            let body = match tb.build() { Ok(b) => b, Err(_) => continue };
+                            successes += 1;
+                            let (mut consumed, mut produced) = (Ledger::new(), Ledger::new());
+                            add(&mut consumed, &input_value);
+                            let outs = body.outputs();
+                            for i in 0..outs.len() { add(&mut produced, &outs.get(i).amount()); }
+                            add(&mut produced, &Value::new(&body.fee()));
+                            consumed.retain(|_, v| *v != 0); produced.retain(|_, v| *v != 0);
+                            if consumed != produced {
+                                let c0 = consumed.get(&(vec![], vec![])).cloned().unwrap_or(0); let p0 = produced.get(&(vec![], vec![])).cloned().unwrap_or(0);
+                                failures.push(format!("add_change_if_needed reported success but build() is unbalanced (prefer_pure_change={}, fee mode {}, {} policies, {} lovelace in, datum {}, max value size {}): lovelace in {} vs out+fee {}, {} outputs",
+                                                      prefer_pure, fee_mode, n_policies, lovelace, with_datum, max_value_size, c0, p0, outs.len()));
+                            }
+                        }
+                    }
+                }
+            }
+        }
+    }
+    assert!(successes >= 100, "the battery is vacuous: only {} balancing successes", successes);
+    assert!(failures.is_empty(), "{} balanced-by-report bodies do not conserve value; first: {}", failures.len(), failures[0]);
+}
